@@ -145,6 +145,29 @@ def generate(rng, tier, seed):
                 c = Case(fn.split(".")[-1] + ":valid", {})
                 verdict_case(c, fn, params, [q.valid(rng) for q in params], entropy, decoder)
                 yield c
+    # two text parameters out of range at once with lengths that compensate each other (one longer by d, the other shorter by d),
+    # and two neighbouring parameters exchanged: a guard on the combined text sees nothing wrong
+    for fn, (params, entropy, decoder) in FUNCS.items():
+        tix = [k for k, p in enumerate(params) if isinstance(p, T)]
+        for a in tix:
+            for b in tix:
+                if a == b:
+                    continue
+                for d in (1, 2, 3):
+                    args = [q.valid(rng) for q in params]
+                    if len(args[b]) - d < 0:
+                        continue
+                    args[a] = args[a] + "".join(rng.choice(params[a].alphabet) for _ in range(d))
+                    args[b] = args[b][: len(args[b]) - d]
+                    c = Case(fn.split(".")[-1] + ":compensating-lengths", {"longer": a, "shorter": b, "by": d})
+                    verdict_case(c, fn, params, args, entropy, decoder)
+                    yield c
+                if b == a + 1:
+                    args = [q.valid(rng) for q in params]
+                    args[a], args[b] = args[b], args[a]
+                    c = Case(fn.split(".")[-1] + ":exchanged-parameters", {"a": a, "b": b})
+                    verdict_case(c, fn, params, args, entropy, decoder)
+                    yield c
     # IBM 3624: text parameters and windows
     ibm = [B((8, 16, 24)), T(16, 16), T(4, 16), T(0, 19)]
     for fn in ("pin.generate_ibm3624_pin", "pin.generate_ibm3624_offset"):
@@ -171,6 +194,17 @@ def generate(rng, tier, seed):
                     elif not dom and r.ok:
                         c.fail(f"input outside the documented domain accepted (returned {r.value!r})")
                     yield c
+        # pads made of several admissible characters (runs of the hex alphabet, doubled characters, the alphabet itself): one character
+        # is the documented domain
+        for pad in ("12", "AB", "9A", "Fa", "ef", "ABC", "0123", "FF", "00", "0123456789", "0123456789abcdefABCDEF", "F ", " F", "0x", "Ff"):
+            args = [q.valid(rng) for q in ibm]
+            plen = len(args[3])
+            start = rng.randrange(0, plen + 1)
+            c = Case(fn.split(".")[-1] + ":multi-character-pad", {"pad": pad})
+            r = c.call(fn, *(args + [start, rng.randrange(0, plen - start + 1), pad]))
+            if r.ok or r.err != "value":
+                c.fail(f"pad {pad!r} (not one hex character) was not rejected with ValueError: {'returned ' + repr(r.value) if r.ok else r.err}")
+            yield c
         for plen in (0, 1, 12, 16, 19):
             pan = digits(rng, plen)
             for start in range(0, plen + 4):
